@@ -45,7 +45,7 @@ def stems : List String := [
   "r3k2r/pppppppp/8/8/8/8/PPPPPPPP/R3K2R w KQkq - 0 1",
   "r3k2r/1b4b1/8/8/8/8/1B4B1/R3K2R w KQkq - 0 1",
   "r3k2r/8/5n2/8/8/5N2/8/R3K2R b KQkq - 3 9",
-  "4k3/8/8/8/8/8/6k1/4K2R w K - 0 1",
+  "8/8/8/8/8/8/6k1/4K2R w K - 0 1",
   "4k2r/6K1/8/8/8/8/8/8 b k - 0 1",
   "r3k3/1K6/8/8/8/8/8/8 b q - 0 1",
   "8/8/8/8/8/8/1k6/R3K3 w Q - 0 1",
@@ -78,8 +78,8 @@ def stems : List String := [
   -- exposed kings, queens and rooks on open lines: perpetual check neighbourhoods
   "6k1/5p1p/8/8/8/8/r4r2/K3Q3 w - - 0 1",
   "3r2k1/5ppp/8/8/8/8/5PPP/3Q2K1 w - - 0 1",
-  "6k1/8/8/8/8/8/1q6/K2R4 b - - 0 1",
-  "k7/8/8/8/8/5Q2/1r4PP/6K1 w - - 0 1",
+  "6k1/8/8/8/8/8/2q5/K2R4 b - - 0 1",
+  "k7/8/8/8/8/8/1r3QPP/6K1 w - - 0 1",
   "r5k1/5p2/6p1/8/8/8/Q4PPP/6K1 b - - 0 1",
   -- small endings
   "8/8/8/4k3/8/8/4P3/4K3 w - - 0 1",
@@ -89,6 +89,11 @@ def stems : List String := [
 ]
 
 def parseStem (s : String) : Spec.Position := (Spec.parseFen s).getD default
+
+/-- only stems that the SPEC accepts as legal positions are used -/
+def stemsOK : List String := stems.filter fun s => match Spec.parseFen s with
+  | some P => Spec.LegalPosition P
+  | none => false
 
 /-- a random legal playout; returns the list of (move text) and final position; stops at terminal -/
 def playout (P : Spec.Position) : Nat → G (List String × Spec.Position)
@@ -122,7 +127,7 @@ def gameOps (startFen : String) (moves : List String) (perPly : List String) (po
 def walkOps (games maxPlies : Nat) (perPly : List String) (posStride : Nat) : G (List String) := do
   let mut out : List String := []
   for gi in [0:games] do
-    let stem := stems.getD (gi % stems.length) ""
+    let stem := stemsOK.getD (gi % stemsOK.length) ""
     let P := parseStem stem
     let len ← below (maxPlies + 1)
     let (ms, _) ← playout P len
@@ -270,7 +275,7 @@ def capChain (P : Spec.Position) : Nat → G (List String)
 def capOps (games maxPlies depth : Nat) : G (List String) := do
   let mut out : List String := []
   for gi in [0:games] do
-    let stem := stems.getD (gi % stems.length) ""
+    let stem := stemsOK.getD (gi % stemsOK.length) ""
     let P := parseStem stem
     let len ← below (maxPlies + 1)
     let (ms, Q) ← playout P len
@@ -287,7 +292,7 @@ def isSpecial (P : Spec.Position) (m : Spec.Move) : Bool :=
 def pairOps (stride : Nat) : List String := Id.run do
   let mut out : List String := []
   let mut idx := 0
-  for stem in stems do
+  for stem in stemsOK do
     let P := parseStem stem
     for m1 in Spec.legalMoves P do
       let Q := Spec.apply P m1
@@ -349,7 +354,7 @@ def evalOps (n : Nat) : G (List String) := do
 def searchOps (n maxPlies : Nat) (sops : List String) : G (List String) := do
   let mut out : List String := []
   for gi in [0:n] do
-    let stem := stems.getD (gi % stems.length) ""
+    let stem := stemsOK.getD (gi % stemsOK.length) ""
     let P := parseStem stem
     let len ← below (maxPlies + 1)
     let (ms, Q) ← playout P len
@@ -389,7 +394,7 @@ def findCycle (P : Spec.Position) : G (Option (List Spec.Move)) := do
 def repOps (n maxPlies maxRep : Nat) (sops : List String) : G (List String) := do
   let mut out : List String := []
   for gi in [0:n] do
-    let stem := stems.getD (gi % stems.length) ""
+    let stem := stemsOK.getD (gi % stemsOK.length) ""
     let P := parseStem stem
     let len ← below (maxPlies + 1)
     let (ms, Q) ← playout P len
